@@ -1,7 +1,7 @@
 #!/bin/sh
 # Entry point of every check:  ./run.sh <Cxx> [quick|thorough]   |   ./run.sh --replay <file>
 # Rebuilds the driver and (inside it) the workers from /repo's current working tree.
-cd /verif || exit 2
+cd "$(dirname "$(readlink -f "$0")")" || exit 2
 export GOFLAGS=-mod=mod GOPROXY=off GOSUMDB=off GOTOOLCHAIN=local
 mkdir -p .bin
 if ! go build -o .bin/vcheck ./cmd/vcheck 2>.bin/vcheck.build.log; then
